@@ -75,6 +75,8 @@ class Conn(object):
     def recv(self, sz):
         b = bytearray(sz); n = self.recv_into(memoryview(b), sz); return bytes(b[:n])
     def sendall(self, data):
+        hook = getattr(self, 'before_write', None)
+        if hook: hook(self)          # the moment the client issues the write; may block (a peer that does not read)
         if self.closed_by_client: raise _socket.error('closed')
         if self.write_error:
             e, self.write_error = self.write_error, None
